@@ -15,7 +15,7 @@ import sys
 import time
 
 VERIF_DIR = os.path.dirname(os.path.dirname(os.path.abspath(__file__)))
-WORK_DIR = os.path.join(VERIF_DIR, '.work')
+WORK_DIR = os.environ.get('MMV_WORK_DIR') or os.path.join(VERIF_DIR, '.work')
 EVID_DIR = os.path.join(VERIF_DIR, 'evidence')
 KNOWN_FILE = os.path.join(VERIF_DIR, 'known_findings.json')
 PY = '/venv/bin/python'
